@@ -739,6 +739,27 @@ func main() {
 	run := mc.NewRun("C10", args.Tier, "exploration")
 	x := &ctx{run: run, st: &stats{}, distinct: &mc.Set{}, outcomes: &mc.Set{}, samples: &mc.Samples{N: 8}, errKinds: map[string]int{}, errEx: map[string]string{}}
 	if args.Replay != "" {
+		var probe struct {
+			Kind string `json:"kind"`
+		}
+		mc.LoadReplay(args.Replay, &probe)
+		if probe.Kind == "ckey" {
+			var c CKCase
+			if err := mc.LoadReplay(args.Replay, &c); err != nil {
+				fmt.Fprintln(os.Stderr, err)
+				os.Exit(3)
+			}
+			w := newCkWorker()
+			res := w.exec(c)
+			fmt.Printf("T = %s\n%s\nerr=%v rows_affected=%d panic=%q\nstatements:\n  %s\nbefore:\n%safter:\n%s",
+				ckModels[c.Model].name, res.prog, res.err, res.rows, res.panicMsg, strings.Join(res.stmts, "\n  "), ckRowsString(res.before), ckRowsString(res.after))
+			ckCheck(run, w, c, &ckStats{}, &mc.Set{}, &mc.Samples{N: 1})
+			if run.NumViolations() > 0 {
+				os.Exit(1)
+			}
+			fmt.Println("no violation")
+			return
+		}
 		var c Case
 		if err := mc.LoadReplay(args.Replay, &c); err != nil {
 			fmt.Fprintln(os.Stderr, err)
@@ -818,6 +839,8 @@ func main() {
 			fmt.Printf("DBG %6d %s\n   %s\n", x.dbg[k], k, strings.ReplaceAll(x.dbgEx[k], "\n", "\n   "))
 		}
 	}
+	ckSamples := &mc.Samples{N: 4}
+	ck := runCkey(run, x.outcomes, ckSamples)
 	st := x.st
 	floor := func(name string, got, min int64) {
 		if got < min && run.NumViolations() == 0 {
@@ -834,6 +857,10 @@ func main() {
 	floor("hook_update_cases_update_time_omitted_kept", st.omitKeptTime, 1000*scale)
 	floor("positive_cells_checked", st.beChecked, 50000*scale)
 	floor("map_programs_compared_across_key_spelling", st.twinChecked, 20000*scale)
+	floor("composite_key_cases", ck.cases, 1000)
+	floor("composite_key_sibling_rows_verified_unchanged", ck.siblingsKept, 2000)
+	floor("composite_key_targets_written", ck.targetsWritten, 500)
+	floor("composite_key_targets_deleted", ck.targetsDeleted, 100)
 	floor("distinct_outcomes", int64(x.outcomes.Len()), 100)
 
 	var ek []string
@@ -852,6 +879,7 @@ func main() {
 	run.Assume("cells classified 'free' by the reference model are not asserted: auto-time cells on create under a restricting Select that does not name them, on create-from-map / upsert-from-map without a key for them, the update-time cell on upsert-from-map and under explicit DoUpdates; a DoUpdates column listed by hand for a restricted field; a map key spelled as the raw column name of a field gorm ignores (-, -:all); the primary key cell when Select(\"*\") meets a struct value; a create-time/update-time cell that is selected explicitly while the struct carries the zero value (only 'never a fresh time' is asserted); a map key for the update-time column under a hook-running update when a restricting Select does not name it; in-memory write-back into the model value is not part of this property")
 	run.Assume("differential rule: every map program (Create(map), Create(&[]map), upsert-from-map, Updates(map), Update, UpdateColumn, UpdateColumns(map)) is also run with its keys in the other spelling and must write the same cells, including the cells the absolute model leaves free; excluded: maps with a key for a field gorm ignores (-, -:all)")
 	run.Assume("model shapes: override = untagged embedded Base{F0..F3} plus an outer re-declaration (same Go name, same column) with <-:create/<-:update/<-:false/-> (outer = shortest path = effective field; ->:false, - and -:all are not enumerated as overriding tags because gorm lets a field without any permission not take over); prefix-shadow = flat model plus Aud{Fi} with embeddedPrefix aud_ (column aud_fi is not asserted on rows the program may write; a field-name spelled Select/Omit entry or map key Fi is ambiguous between fi and aud_fi, so only the hard core is asserted for fi then and the spelling-differential rule is skipped); patch-struct = Updates/UpdateColumns with a value of a different struct type P{F0..F3} with its own tags (a column is writable only if the model's field and P's field both allow it; the update-time cell is free because P has no update-time field)")
+	run.Assume("composite-key family (ckey.go): models K2(int,string), K2s(string,int), K3(int,string,int) on tables whose rows share every proper subset of key values; 16 targeting programs x every row / an absent key (slices: every pair, and row+absent) x {no condition, condition matching all rows, condition excluding the first keyed row}; only FULL keys are given (a value with some key columns zero is targeted differently by the update and delete paths and is left out); evaluations/distinct_nontrivial do not include these cases, they are counted in composite_key_*")
 	run.Assume("a Session{SkipHooks:true} chain is treated like the column-update methods (no refresh of update-time, update-time written only when selected or supplied)")
 	run.Finish(map[string]interface{}{
 		"evaluations":         st.total,
@@ -877,6 +905,12 @@ func main() {
 		"hook_update_cases_update_time_refreshed":       st.hookUpdRefreshed,
 		"hook_update_cases_update_time_omitted_kept":    st.omitKeptTime,
 		"map_programs_compared_across_key_spelling":     st.twinChecked,
+		"composite_key_cases":                           ck.cases,
+		"composite_key_sibling_rows_verified_unchanged": ck.siblingsKept,
+		"composite_key_targets_written":                 ck.targetsWritten,
+		"composite_key_targets_deleted":                 ck.targetsDeleted,
+		"composite_key_rows_affected_verified":          ck.rowsAffectedOK,
+		"composite_key_samples":                         ckSamples.List(),
 		"new_rows_seen":                                 st.newRowsSeen,
 		"error_classes":                                 errs,
 	})
